@@ -704,18 +704,27 @@ class FTensor:
         self.name = f"t{o}"
         self.dtype = ir.DataType.UINT8
         self.shape = ir.Shape([size])
-        self.nbytes = size
+        self._nbytes = size
         self.size = size
         self.data = obj_bytes(o, size)
         self.doc_string = None
         self.metadata_props = {}
         self.meta = {}
 
+    @property
+    def nbytes(self):
+        # OS-scheduled runs: a tiny random sleep also where the writers read the size (between taking a tensor lock and
+        # reserving the budget): widens the windows in which a lock-order inversion can bite (seeded C09-r1)
+        st = self._st[0]
+        if st is not None and st.sched is None and st.jitter is not None and getattr(st, "os_writing", False):
+            time.sleep(st.jitter())
+        return self._nbytes
+
     def tobytes(self):
         return self.data
 
     def tofile(self, file):
-        return hooked_tofile(self._st, self.o, self.nbytes, file, lambda f: f.write(self.data))
+        return hooked_tofile(self._st, self.o, self._nbytes, file, lambda f: f.write(self.data))
 
 
 class _NoFileno:
@@ -1686,6 +1695,7 @@ def _run_os(case, seed, stall_ticks, st_ref):
 
     def body():
         try:
+            st.os_writing = True
             ext = call_writer(case, tensors, None if case.get("nocb") else make_callback(st_ref), d, case["workers"])
             res["result"] = canon_result(ext)
             res["outcome"] = "returned"
@@ -2196,6 +2206,26 @@ def _work_inner(item, part):
                 _compare(part, "random", case, cfg, results, serial)
         elif kind == "replay":
             _replay_into(part, item["obj"])
+        elif kind == "osfixed":  # OS-scheduled runs of the fixed configurations (oracle only)
+            import random
+
+            rng = random.Random(item["seed"])
+            for name, case in fixed_cases():
+                if (case.get("nocb") or any(d.get("kind") for d in case["objs"])) and any(
+                        t["fails"] or t["cbFails"] for t in case["tensors"]):
+                    # as for the random OS-scheduled cases (`os_only`): without a callback / with real tensor objects the
+                    # OS-scheduled harness cannot attribute an injected failure to a tensor use
+                    continue
+                serial = serial_reference(case)
+                for rep in range(item["reps"]):
+                    if _leak_capped(part) or _hang_seen(item):
+                        return dict(part)
+                    r = run_os_confirmed(case, rng.randrange(1 << 30), part)
+                    part.case(["osfixed", name, item["seed"], rep], nontrivial=True, osfixed_outcome=r["outcome"])
+                    oracle(case, r, serial, "os", part)
+                    if r["status"] == "hang":
+                        _mark_hang(item)
+                        return dict(part)
         elif kind == "os":  # plain OS-scheduled runs, oracle only
             import random
 
@@ -2548,6 +2578,8 @@ def run(ctx: Ctx) -> None:
     for k in range(ctx.pick(16, 64)):
         items.append(dict(kind="os", seed=ctx.rng.randrange(1 << 30), count=ctx.pick(6, 20), reps=ctx.pick(3, 6),
                           big=not ctx.quick))
+    for k in range(ctx.pick(8, 32)):
+        items.append(dict(kind="osfixed", seed=ctx.rng.randrange(1 << 30), reps=ctx.pick(4, 12)))
     marker = os.path.join(_TMP_ROOT or tempfile.gettempdir(), f"c09-hang-{os.getpid()}")
     for it in items:
         it["marker"] = marker
